@@ -30,7 +30,7 @@ RULE = ("one run = one history of 20-200 calls on shared state (process-global r
         "distinct (operation, names, allow-list, position-independent); violations are minimised by ddmin over the history")
 ASSUMPTIONS = [
     "model = the tables of docs/guide/algorithms.rst: recommended JWS {HS256, RS256, ES256}; recommended JWE {RSA-OAEP, A128KW, A256KW, dir, ECDH-ES, ECDH-ES+A128KW, ECDH-ES+A256KW, the six RFC 7518 encs, DEF}",
-    "don't-care: algorithms=[] (never generated); algorithms= and registry= given together (never generated); non-string names must fail, with any exception",
+    "don't-care: algorithms= given together with a registry that has an explicit list of its own (two conflicting lists; the after-effects on later calls are judged) - a list beside a registry *without* a list of its own is the caller's one explicit list and is judged; non-string names must fail, with any exception",
     "only suitable keys are used, so the algorithm gate is the only reason for refusal",
     "tokens for the consuming side are minted by the reference peer so that the consumer's gate is exercised for every algorithm",
 ]
@@ -109,7 +109,12 @@ def gen_allow(rng: Rng, family: str, names: list) -> dict:
         # it must not change what the shared / default registry allows in later calls
         i = rng.randrange(5)
         lst = rng.sample(universe, rng.randrange(1, 4))
+        if rng.chance(0.5):
+            lst = list(dict.fromkeys([n for n in names if isinstance(n, str)] + lst))
         return {"how": "both", "id": i, "list": lst, "registry_list": SHARED[family][i] if i < 4 else None}
+    if r < 0.60:
+        # an explicit empty list allows nothing (it is not "no list")
+        return {"how": rng.pick(["algorithms", "registry-fresh"]), "list": []}
     # explicit list: singleton / subset / superset with unknown names; biased to contain the names in use
     lst = []
     strs = [n for n in names if isinstance(n, str)]
@@ -128,6 +133,8 @@ def gen_allow(rng: Rng, family: str, names: list) -> dict:
     if out["how"] == "registry-fresh" and family == "jws" and rng.chance(0.3):
         out["plain_class"] = True
         out["strict"] = rng.chance(0.5)
+    if out["how"] == "registry-fresh" and family == "jwe" and rng.chance(0.3):
+        out["any_recipient"] = True       # any-recipient mode: every recipient's algorithm is still gated
     return out
 
 
@@ -224,6 +231,8 @@ def _kw(node: Node, allow: dict, family: str, r7797: bool = False) -> dict:
             # a caller may hand the RFC 7797 functions a plain jws.JWSRegistry: whatever that does about the b64 header,
             # its allow-list must not be lost
             return {"registry": JWSRegistry(algorithms=list(allow["list"]), strict_check_header=allow.get("strict", True))}
+        if family == "jwe" and allow.get("any_recipient"):
+            return {"registry": cls(algorithms=list(allow["list"]), verify_all_recipients=False)}
         return {"registry": cls(algorithms=list(allow["list"]))}
     if how == "registry-shared":
         fam = "jwe" if family == "jwe" else ("jws7797" if r7797 else "jws")
@@ -455,8 +464,9 @@ def judge(d: dict, state_before: dict, outcome) -> tuple | None:
     status, exc, detail = outcome
     if d["op"] == "register":
         return None
-    if d["allow"]["how"] == "both":
-        return None       # don't-care zone; only its after-effects on later calls are judged
+    if d["allow"]["how"] == "both" and d["allow"].get("registry_list") is not None:
+        return None       # two conflicting explicit lists: don't-care zone; only the after-effects on later calls are judged
+    # (a list beside a registry that has no list of its own is the caller's one explicit list: it must hold)
     want, bad = expectation(d, state_before)
     sig_op = d["op"]
     if want == "ok":
